@@ -44,7 +44,9 @@ BAD_WING_TYPES = ["delta", "crm", "Rect", "RECT", "", "rectangle", "elliptic", "
 BAD_FEM_TYPES = ["shell", "Tube", "beam", "", "wing_box", "TUBE", "box"]
 # plausible typos / misplaced keys; none of them is read anywhere in openaerostruct (checked by grep), none is documented
 UNKNOWN_SURFACE_KEYS = ["spam", "twist", "thickness", "symetry", "with_Viscous", "CL_0", "wing_type", "offset", "chord",
-                        "Mesh", "t_over_c", "youngs_modulus"]
+                        "Mesh", "t_over_c", "youngs_modulus",
+                        # near misses: a supported key with a suffix (none of them is the documented `<name>_dv` switch)
+                        "sweep_deg", "span_m", "twist_cp_deg", "CD0_wing", "E_modulus", "yield_stress", "k_lam_upper", "mesh_file"]
 UNKNOWN_MESH_KEYS = ["spam", "nx", "ny", "Span", "sweep", "taper", "name", "chord", "symetry", "num_z"]
 
 
